@@ -36,7 +36,7 @@ void h_wl_verify(void) {
     if (nullsel == 0) {
         ret = secp256k1_whitelist_verify(&ctx, &sig, online, offline, n_keys, &sub);
         __CPROVER_assert(ret == 0 || ret == 1, "C16 whitelist_verify: returns 0 or 1");
-        __CPROVER_assert(g_illegal == 0 && g_error == 0, "C16 whitelist_verify: no callback for non-NULL arguments (outside key loading), whatever the signature bytes");
+        __CPROVER_assert(g_error == 0 && (g_ck_n >= 1 || g_illegal == 0), "C16 whitelist_verify: no error callback; illegal-use reports only from loading the key objects, whatever the signature bytes");
         __CPROVER_assert(!(ret == 1) || n_keys >= 1, "C16 whitelist_verify.nonempty: ret = 1 implies n_keys >= 1");
         if (sig.n_keys != n_keys || sig.n_keys > SECP256K1_WHITELIST_MAX_N_KEYS)
             __CPROVER_assert(ret == 0, "C16 whitelist_verify: key-count mismatch or more than 255 keys rejected");
@@ -79,7 +79,7 @@ void h_wl_verify(void) {
         else if (nullsel == 2) ret = secp256k1_whitelist_verify(&ctx, &sig, NULL, offline, n_keys, &sub);
         else if (nullsel == 3) ret = secp256k1_whitelist_verify(&ctx, &sig, online, NULL, n_keys, &sub);
         else ret = secp256k1_whitelist_verify(&ctx, &sig, online, offline, n_keys, NULL);
-        __CPROVER_assert(ret == 0 && g_illegal == 1 && g_error == 0, "C16 whitelist_verify: NULL argument reports illegal use and returns 0");
+        __CPROVER_assert(ret == 0 && g_illegal >= 1 && g_error == 0, "C16 whitelist_verify: NULL argument reports illegal use and returns 0");
         REACH("wl verify NULL argument");
     }
 }
